@@ -31,7 +31,8 @@ struct IllFormed : std::runtime_error { size_t pos; bool truncated; IllFormed(co
 
 class Decoder {
 public:
-  Decoder(const std::string& d): d_(d) {}
+  // ts96SecondsFirst: read the 96-bit timestamp the way BitSerializer writes it (recorded finding KF-35); never used for verdicts of conformance
+  explicit Decoder(const std::string& d, bool ts96SecondsFirst = false): d_(d), ts96SecondsFirst_(ts96SecondsFirst) {}
   size_t pos() const { return p_; }
   Val value(int depth = 0) {
     if (depth > 100000) throw IllFormed("too deep", p_);
@@ -78,7 +79,7 @@ public:
     return v;
   }
   // one complete object consuming all input
-  static Val document(const std::string& d) { Decoder dec(d); Val v = dec.value(); if (dec.p_ != d.size()) throw IllFormed("trailing bytes", dec.p_); return v; }
+  static Val document(const std::string& d, bool ts96SecondsFirst = false) { Decoder dec(d, ts96SecondsFirst); Val v = dec.value(); if (dec.p_ != d.size()) throw IllFormed("trailing bytes", dec.p_); return v; }
 private:
   uint8_t u8() { if (p_ >= d_.size()) throw IllFormed("truncated", p_, true); return (uint8_t)d_[p_++]; }
   uint64_t be(int n) { uint64_t r = 0; for (int k = 0; k < n; k++) r = (r << 8) | u8(); return r; }
@@ -92,12 +93,12 @@ private:
       auto rd = [&](size_t off, int len) { uint64_t r = 0; for (int k = 0; k < len; k++) r = (r << 8) | (uint8_t)pl[off + k]; return r; };
       if (n == 4) { v.tsSec = (int64_t)rd(0, 4); v.tsNs = 0; }
       else if (n == 8) { uint64_t x = rd(0, 8); v.tsNs = (uint32_t)(x >> 34); v.tsSec = (int64_t)(x & 0x3ffffffffULL); }
-      else if (n == 12) { v.tsNs = (uint32_t)rd(0, 4); v.tsSec = (int64_t)rd(4, 8); }
+      else if (n == 12) { if (ts96SecondsFirst_) { v.tsSec = (int64_t)rd(0, 8); v.tsNs = (uint32_t)rd(8, 4); } else { v.tsNs = (uint32_t)rd(0, 4); v.tsSec = (int64_t)rd(4, 8); } }
       else throw IllFormed("timestamp with invalid length", start);
       if (v.tsNs > 999999999u) throw IllFormed("timestamp nanoseconds out of range", start);
     } else { v.t = T::Ext; v.extType = ty; v.s = pl; }
   }
-  const std::string& d_; size_t p_ = 0;
+  const std::string& d_; size_t p_ = 0; bool ts96SecondsFirst_ = false;
 };
 
 // ---- encoder with explicit format choice --------------------------------------------------
